@@ -279,3 +279,236 @@ Proof.
     replace (mvar 1 N i j =? 1) with false by (symmetry; apply Z.eqb_neq; unfold mvar in *; lia).
     rewrite enc_map_mvar by lia. apply Z.eqb_eq.
 Qed.
+
+(* ---------- BinaryCliqueFormula ---------- *)
+(* the vertex (1..N) spelled by the bits of clique member i *)
+Definition bin_vertex (a : Z -> bool) (N : Z) (i : Z) : Z := bm_value a (bm_bits N) i + 1.
+
+Lemma kcliquebin_cons_sem a N E k sb : 1 <= N ->
+  (irs_hold a (cons_clauses (kclique_bad E) (kcliquebin_mk (bm_bits N) sb) k N) = true <->
+   rel_straight (bm_rel a N) (kclique_bad E) k N /\ (sb = false -> rel_crossed (bm_rel a N) (kclique_bad E) k N)).
+Proof.
+  intros HN. destruct (bm_bits_spec N HN) as [Hb Hle]. rewrite cons_clauses_sem.
+  unfold rel_straight, rel_crossed, bm_rel, kcliquebin_mk. split.
+  - intros H. split.
+    + intros i1 i2 j1 j2 A1 A2 A3 B1 B2 B3 Hbad T1 T2. apply Z.eqb_eq in T1, T2.
+      specialize (H i1 i2 j1 j2 A1 A2 A3 B1 B2 B3 Hbad).
+      rewrite irs_hold_cons in H. apply andb_true_iff in H as [H _]. cbn [ir_holds] in H.
+      assert (C1 : 1 <= i1) by lia. assert (C2 : 1 <= i2) by lia.
+      assert (C3 : 0 <= j1 - 1 < 2 ^ bm_bits N) by lia. assert (C4 : 0 <= j2 - 1 < 2 ^ bm_bits N) by lia.
+      apply (proj1 (bm_forbid2_sem a _ i1 (j1 - 1) i2 (j2 - 1) Hb C1 C2 C3 C4) H); lia.
+    + intros -> i1 i2 j1 j2 A1 A2 A3 B1 B2 B3 Hbad T1 T2. apply Z.eqb_eq in T1, T2.
+      specialize (H i1 i2 j1 j2 A1 A2 A3 B1 B2 B3 Hbad).
+      rewrite !irs_hold_cons in H. apply andb_true_iff in H as [_ H]. apply andb_true_iff in H as [H _]. cbn [ir_holds] in H.
+      assert (C1 : 1 <= i1) by lia. assert (C2 : 1 <= i2) by lia.
+      assert (C3 : 0 <= j1 - 1 < 2 ^ bm_bits N) by lia. assert (C4 : 0 <= j2 - 1 < 2 ^ bm_bits N) by lia.
+      apply (proj1 (bm_forbid2_sem a _ i1 (j2 - 1) i2 (j1 - 1) Hb C1 C2 C4 C3) H); lia.
+  - intros [Hs Hc] i1 i2 j1 j2 A1 A2 A3 B1 B2 B3 Hbad. rewrite irs_hold_cons. apply andb_true_iff. split.
+    + cbn [ir_holds]. apply bm_forbid2_sem; try lia. intros T1 T2. apply (Hs i1 i2 j1 j2); auto; apply Z.eqb_eq; lia.
+    + destruct sb; [reflexivity|]. rewrite irs_hold_cons, irs_hold_nil, andb_true_r. cbn [ir_holds].
+      apply bm_forbid2_sem; try lia. intros T1 T2. apply (Hc eq_refl i1 i2 j1 j2); auto; apply Z.eqb_eq; lia.
+Qed.
+
+Lemma kcliquebin_ok N E k sb l : kcliquebin_ir N E k sb = Some l -> irs_ok l = true.
+Proof.
+  unfold kcliquebin_ir. destruct (Z.ltb_spec k 1); [discriminate|]. destruct (Z.ltb_spec N 1); [discriminate|].
+  cbn [orb]. intros [= <-]. destruct (bm_bits_spec N ltac:(lia)) as [Hb _].
+  rewrite !irs_ok_app_iff. split; [apply bm_complete_ok; lia|]. split; [apply bm_injective_ok; lia|]. split.
+  - apply irs_ok_if. apply bm_nondecreasing_ok; lia.
+  - apply cons_clauses_ok. intros i1 i2 j1 j2 A1 A2 A3 B1 B2 B3. unfold kcliquebin_mk, irs_ok. cbn [forallb].
+    rewrite bm_forbid2_ok by lia. destruct sb; cbn [forallb]; [reflexivity|]. now rewrite bm_forbid2_ok by lia.
+Qed.
+
+(* T1, through  value a i = sum of the bits : the k bit strings spell k distinct, pairwise adjacent
+   vertices (increasing when symmetry is broken) *)
+Theorem kcliquebin_char a N E k sb l : kcliquebin_ir N E k sb = Some l ->
+  (irs_hold a l = true <->
+   homogeneous N E k true (bin_vertex a N) /\ (sb = true -> increasing k (bin_vertex a N))).
+Proof.
+  unfold kcliquebin_ir. destruct (Z.ltb_spec k 1); [discriminate|]. destruct (Z.ltb_spec N 1); [discriminate|].
+  cbn [orb]. intros [= <-]. assert (HN : 1 <= N) by lia. destruct (bm_bits_spec N HN) as [Hb Hle].
+  rewrite !irs_hold_app_iff, bm_complete_sem, bm_injective_sem, irs_hold_if, bm_nondecreasing_sem, kcliquebin_cons_sem by assumption.
+  unfold homogeneous. split.
+  - intros [Hc [Hi [Hnd [Hst Hcr]]]].
+    assert (G : graph_of (bm_rel a N) (bin_vertex a N) k N).
+    { intros i Hi'. unfold bin_vertex, bm_rel. pose proof (bm_value_range a (bm_bits N) i Hb). specialize (Hc i Hi').
+      split; [lia|]. intros j Hj. apply Z.eqb_eq. }
+    destruct (proj1 (emb_fun _ _ k N (kclique_bad E) sb G)) as [Hinj [Hinc Hp]]; [tauto|].
+    split; [|exact Hinc]. split; [exact Hinj|]. exact (proj1 (kclique_pairs_ok N E k _ Hinj) Hp).
+  - intros [[Hinj He] Hinc].
+    assert (Hc : forall i, 1 <= i <= k -> bm_value a (bm_bits N) i < N).
+    { intros i Hi'. destruct Hinj as [Hr _]. specialize (Hr i Hi'). unfold bin_vertex in Hr. lia. }
+    assert (G : graph_of (bm_rel a N) (bin_vertex a N) k N).
+    { intros i Hi'. unfold bin_vertex, bm_rel. pose proof (bm_value_range a (bm_bits N) i Hb). specialize (Hc i Hi').
+      split; [lia|]. intros j Hj. apply Z.eqb_eq. }
+    destruct (proj2 (emb_fun _ _ k N (kclique_bad E) sb G)) as [Hi [Hnd [Hst Hcr]]].
+    { split; [exact Hinj|]. split; [exact Hinc|]. exact (proj2 (kclique_pairs_ok N E k _ Hinj) He). }
+    tauto.
+Qed.
+
+(* ---------- RamseyWitnessFormula, the documented behaviour (ramlb_spec) ---------- *)
+Lemma guarded_complete_sem a g off k N : 0 <= off ->
+  (irs_hold a (guarded_complete g off k N) = true <-> (lit_true a g = false -> rel_total (rel_of a off N) k N)).
+Proof.
+  intros Hoff. unfold guarded_complete, rel_total, rel_of. rewrite irs_hold_map_iff. split.
+  - intros H Hg i Hi. specialize (H i (proj2 (In_rng i k) Hi)). cbn [ir_holds] in H. rewrite clause_sat_cons, Hg in H.
+    cbn [orb] in H. apply clause_pos_map in H as [j [Hj T]].
+    + exists j. split; [now apply In_rng|assumption].
+    + intros j Hj. apply In_rng in Hj. apply mvar_pos; lia.
+  - intros H i Hi. apply In_rng in Hi. cbn [ir_holds]. rewrite clause_sat_cons. destruct (lit_true a g); [reflexivity|].
+    cbn [orb]. destruct (H eq_refl i Hi) as [j [Hj T]]. apply clause_pos_map.
+    + intros j' Hj'. apply In_rng in Hj'. apply mvar_pos; lia.
+    + exists j. split; [now apply In_rng|assumption].
+Qed.
+Lemma guarded_complete_ok g off k N : 0 <= off -> g <> 0 -> irs_ok (guarded_complete g off k N) = true.
+Proof.
+  intros Hoff Hg. apply irs_ok_map. intros i Hi. apply In_rng in Hi. unfold ir_ok. cbn [ir_lits lits_ok forallb].
+  apply andb_true_iff. split; [now apply nonzero_spec|]. apply lits_ok_map_pos. intros j Hj. apply In_rng in Hj. apply mvar_pos; lia.
+Qed.
+
+(* one half of the documented formula: an embedding that must be total only when the guard literal is false *)
+Definition part_rel (a : Z -> bool) (g off k N : Z) (bad : Z -> Z -> Z -> Z -> bool) (sb : bool) : Prop :=
+  (lit_true a g = false -> rel_total (rel_of a off N) k N) /\
+  rel_functional (rel_of a off N) k N /\ rel_injective (rel_of a off N) k N /\
+  (sb = true -> rel_nondecreasing (rel_of a off N) k N) /\
+  rel_straight (rel_of a off N) bad k N /\ (sb = false -> rel_crossed (rel_of a off N) bad k N).
+
+Lemma ramlb_part_sem a g off k N bad sb : 0 <= off ->
+  (irs_hold a (ramlb_part g off k N bad sb) = true <-> part_rel a g off k N bad sb).
+Proof.
+  intros Hoff. unfold ramlb_part, part_rel.
+  rewrite !irs_hold_app_iff, guarded_complete_sem, um_functional_sem, um_injective_sem, irs_hold_if, um_nondecreasing_sem,
+    cons_pair_sem by lia. tauto.
+Qed.
+Lemma ramlb_part_ok g off k N bad sb : 0 <= off -> g <> 0 -> irs_ok (ramlb_part g off k N bad sb) = true.
+Proof.
+  intros Hoff Hg. unfold ramlb_part. rewrite !irs_ok_app_iff.
+  repeat split; [now apply guarded_complete_ok|now apply um_functional_ok|now apply um_injective_ok|
+                 apply irs_ok_if; now apply um_nondecreasing_ok|now apply cons_pair_ok].
+Qed.
+
+Lemma pairs_ok_ext bad bad' k phi : (forall i1 i2 j1 j2, bad i1 i2 j1 j2 = bad' i1 i2 j1 j2) ->
+  (pairs_ok bad k phi <-> pairs_ok bad' k phi).
+Proof. intros H. unfold pairs_ok. split; intros Hp i1 i2 A1 A2 A3; [rewrite <- H|rewrite H]; now apply Hp. Qed.
+
+(* an active half is an embedding of a homogeneous set *)
+Lemma part_active a g off k N E c bad sb : 0 <= off ->
+  (forall i1 i2 j1 j2, bad i1 i2 j1 j2 = ramlb_bad E c i1 i2 j1 j2) ->
+  part_rel a g off k N bad sb -> lit_true a g = false ->
+  exists phi, graph_of (rel_of a off N) phi k N /\ homogeneous N E k c phi /\ (sb = true -> increasing k phi).
+Proof.
+  intros Hoff Hbad [Ht [Hf [Hi [Hnd [Hst Hcr]]]]] Hg. specialize (Ht Hg). exists (dec_map a off N).
+  assert (G := dec_map_graph a off N k Ht Hf). split; [exact G|].
+  destruct (proj1 (emb_fun _ _ k N bad sb G)) as [Hinj [Hinc Hp]]; [tauto|].
+  split; [|exact Hinc]. split; [exact Hinj|]. apply (proj1 (ramlb_pairs_ok N E k c _ Hinj)).
+  now apply (pairs_ok_ext bad (ramlb_bad E c)).
+Qed.
+
+(* conversely: the graph of a homogeneous set satisfies a half, whatever the guard *)
+Lemma part_of_graph a g off k N E c bad sb phi :
+  (forall i1 i2 j1 j2, bad i1 i2 j1 j2 = ramlb_bad E c i1 i2 j1 j2) ->
+  graph_of (rel_of a off N) phi k N -> homogeneous N E k c phi -> (sb = true -> increasing k phi) ->
+  part_rel a g off k N bad sb.
+Proof.
+  intros Hbad G [Hinj He] Hinc.
+  destruct (proj2 (emb_fun _ _ k N bad sb G)) as [Hi [Hnd [Hst Hcr]]].
+  { split; [exact Hinj|]. split; [exact Hinc|]. apply (pairs_ok_ext bad (ramlb_bad E c)); [assumption|].
+    exact (proj2 (ramlb_pairs_ok N E k c _ Hinj) He). }
+  pose proof (graph_of_total _ _ _ _ G). pose proof (graph_of_functional _ _ _ _ G). unfold part_rel. tauto.
+Qed.
+
+(* an empty relation satisfies a half whose guard literal is true *)
+Lemma part_of_empty a g off k N bad sb :
+  (forall i j, 1 <= i <= k -> 1 <= j <= N -> rel_of a off N i j = false) -> lit_true a g = true ->
+  part_rel a g off k N bad sb.
+Proof.
+  intros He Hg. unfold part_rel. split; [intros H; congruence|]. split; [|split; [|split; [|split]]].
+  - intros i j1 j2 Hi H1 H2 T1. rewrite He in T1 by lia. discriminate.
+  - intros j i1 i2 Hj H1 H2 T1. rewrite He in T1 by lia. discriminate.
+  - intros _ i1 i2 j1 j2 A1 A2 A3 B1 B2 B3 T1. rewrite He in T1 by lia. discriminate.
+  - intros i1 i2 j1 j2 A1 A2 A3 B1 B2 B3 _ T1. rewrite He in T1 by lia. discriminate.
+  - intros _ i1 i2 j1 j2 A1 A2 A3 B1 B2 B3 _ T1. rewrite He in T1 by lia. discriminate.
+Qed.
+
+Definition spec_bad_clique (E : list (Z * Z)) : Z -> Z -> Z -> Z -> bool := fun _ _ j1 j2 => negb (has_edge E j1 j2).
+Definition spec_bad_indep (E : list (Z * Z)) : Z -> Z -> Z -> Z -> bool := fun _ _ j1 j2 => has_edge E j1 j2.
+Lemma spec_bad_clique_eq E i1 i2 j1 j2 : spec_bad_clique E i1 i2 j1 j2 = ramlb_bad E true i1 i2 j1 j2.
+Proof. unfold spec_bad_clique, ramlb_bad. now destruct (has_edge E j1 j2). Qed.
+Lemma spec_bad_indep_eq E i1 i2 j1 j2 : spec_bad_indep E i1 i2 j1 j2 = ramlb_bad E false i1 i2 j1 j2.
+Proof. unfold spec_bad_indep, ramlb_bad. now destruct (has_edge E j1 j2). Qed.
+
+Lemma ramlb_spec_some N E k s sb l : ramlb_spec N E k s sb = Some l ->
+  0 <= k /\ 0 <= s /\
+  l = ramlb_part (-1) 1 k N (spec_bad_clique E) sb ++ ramlb_part 1 (1 + k * N) s N (spec_bad_indep E) sb.
+Proof.
+  unfold ramlb_spec. destruct (Z.ltb_spec k 0); [discriminate|]. destruct (Z.ltb_spec s 0); [discriminate|].
+  cbn [orb]. intros Hl. split; [assumption|]. split; [assumption|]. symmetry. now injection Hl.
+Qed.
+
+Lemma ramlb_spec_ok N E k s sb l : 0 <= N -> ramlb_spec N E k s sb = Some l -> irs_ok l = true.
+Proof.
+  intros HN Hl. apply ramlb_spec_some in Hl as [Hk [Hs ->]]. assert (0 <= k * N) by (apply Z.mul_nonneg_nonneg; lia).
+  rewrite irs_ok_app_iff. split; apply ramlb_part_ok; lia.
+Qed.
+
+(* T1 for the documented behaviour *)
+Theorem ramlb_spec_char a N E k s sb l : 0 <= N -> ramlb_spec N E k s sb = Some l ->
+  (irs_hold a l = true <->
+   part_rel a (-1) 1 k N (spec_bad_clique E) sb /\ part_rel a 1 (1 + k * N) s N (spec_bad_indep E) sb).
+Proof.
+  intros HN Hl. apply ramlb_spec_some in Hl as [Hk [Hs ->]]. assert (0 <= k * N) by (apply Z.mul_nonneg_nonneg; lia).
+  rewrite irs_hold_app_iff, !ramlb_part_sem by lia. reflexivity.
+Qed.
+
+(* when C is true the first mapping lists a k-clique, when C is false the second one an independent set of size s *)
+Theorem ramlb_spec_witness a N E k s sb l : 0 <= N -> ramlb_spec N E k s sb = Some l -> irs_hold a l = true ->
+  (a 1 = true -> exists phi, graph_of (rel_of a 1 N) phi k N /\ homogeneous N E k true phi /\ (sb = true -> increasing k phi)) /\
+  (a 1 = false -> exists psi, graph_of (rel_of a (1 + k * N) N) psi s N /\ homogeneous N E s false psi /\ (sb = true -> increasing s psi)).
+Proof.
+  intros HN Hl H. assert (Hk : 0 <= k /\ 0 <= s) by (apply ramlb_spec_some in Hl; tauto).
+  assert (HkN : 0 <= k * N) by (apply Z.mul_nonneg_nonneg; lia).
+  apply (ramlb_spec_char a N E k s sb l HN Hl) in H as [H1 H2]. split; intros HC.
+  - apply (part_active a (-1) 1 k N E true _ sb ltac:(lia) (spec_bad_clique_eq E) H1).
+    change (-1) with (- (1)). rewrite lit_true_neg by lia. now rewrite HC.
+  - apply (part_active a 1 (1 + k * N) s N E false _ sb ltac:(lia) (spec_bad_indep_eq E) H2).
+    rewrite lit_true_pos by lia. exact HC.
+Qed.
+
+(* T2 for the documented behaviour: satisfiable iff there is a k-clique or an independent set of size s *)
+Theorem ramlb_spec_sat_iff_raw N E k s sb l : 0 <= N -> ramlb_spec N E k s sb = Some l ->
+  ((exists a, irs_hold a l = true) <->
+   (exists phi, homogeneous N E k true phi /\ (sb = true -> increasing k phi)) \/
+   (exists psi, homogeneous N E s false psi /\ (sb = true -> increasing s psi))).
+Proof.
+  intros HN Hl. assert (Hk : 0 <= k /\ 0 <= s) by (apply ramlb_spec_some in Hl; tauto).
+  assert (HkN : 0 <= k * N) by (apply Z.mul_nonneg_nonneg; lia).
+  split.
+  - intros [a H]. destruct (ramlb_spec_witness a N E k s sb l HN Hl H) as [W1 W2]. destruct (a 1).
+    + left. destruct (W1 eq_refl) as [phi [_ W]]. now exists phi.
+    + right. destruct (W2 eq_refl) as [psi [_ W]]. now exists psi.
+  - intros [[phi [Hh Hinc]]|[psi [Hh Hinc]]].
+    + exists (fun v => if v =? 1 then true else if v <=? 1 + k * N then enc_map 1 N phi v else false).
+      apply (ramlb_spec_char _ N E k s sb l HN Hl). split.
+      * apply (part_of_graph _ (-1) 1 k N E true _ sb phi (spec_bad_clique_eq E)); auto.
+        intros i Hi. destruct Hh as [[Hr _] _]. split; [now apply Hr|]. intros j Hj. unfold rel_of.
+        pose proof (mvar_range 1 k N i j ltac:(lia) Hi Hj) as Hm.
+        replace (mvar 1 N i j =? 1) with false by (symmetry; apply Z.eqb_neq; lia).
+        replace (mvar 1 N i j <=? 1 + k * N) with true by (symmetry; apply Z.leb_le; lia).
+        rewrite enc_map_mvar by lia. apply Z.eqb_eq.
+      * apply part_of_empty; [|reflexivity]. intros i j Hi Hj. unfold rel_of.
+        pose proof (mvar_range (1 + k * N) s N i j ltac:(lia) Hi Hj) as Hm.
+        replace (mvar (1 + k * N) N i j =? 1) with false by (symmetry; apply Z.eqb_neq; lia).
+        replace (mvar (1 + k * N) N i j <=? 1 + k * N) with false by (symmetry; apply Z.leb_gt; lia). reflexivity.
+    + exists (fun v => if v =? 1 then false else if v <=? 1 + k * N then false else enc_map (1 + k * N) N psi v).
+      apply (ramlb_spec_char _ N E k s sb l HN Hl). split.
+      * apply part_of_empty; [|reflexivity]. intros i j Hi Hj. unfold rel_of.
+        pose proof (mvar_range 1 k N i j ltac:(lia) Hi Hj) as Hm.
+        replace (mvar 1 N i j =? 1) with false by (symmetry; apply Z.eqb_neq; lia).
+        replace (mvar 1 N i j <=? 1 + k * N) with true by (symmetry; apply Z.leb_le; lia). reflexivity.
+      * apply (part_of_graph _ 1 (1 + k * N) s N E false _ sb psi (spec_bad_indep_eq E)); auto.
+        intros i Hi. destruct Hh as [[Hr _] _]. split; [now apply Hr|]. intros j Hj. unfold rel_of.
+        pose proof (mvar_range (1 + k * N) s N i j ltac:(lia) Hi Hj) as Hm.
+        replace (mvar (1 + k * N) N i j =? 1) with false by (symmetry; apply Z.eqb_neq; lia).
+        replace (mvar (1 + k * N) N i j <=? 1 + k * N) with false by (symmetry; apply Z.leb_gt; lia).
+        rewrite enc_map_mvar by lia. apply Z.eqb_eq.
+Qed.
